@@ -222,6 +222,8 @@ class ABCInterfaceClass(InterfaceClass):
         method = fromFunction(function, self, name=name)
         # Eliminate the leading *self*, which is implied in
         # an interface, but explicit in an ABC.
+        if method.required[:1] == method.positional[:1]:
+            method.required = method.required[1:]
         method.positional = method.positional[1:]
         return method
 
